@@ -101,6 +101,32 @@ pub fn run_shard(prop: &Prop, tier: Tier, shard: usize, n: usize, out: &PathBuf,
     ctx.known_keys = known.iter().filter(|k| k.is_known).map(|k| k.key.clone()).collect();
     ctx.known_keys.sort();
     ctx.known_keys.dedup();
+    // canary (DESIGN.md §4.3): the comparison itself must be able to fail.  For the ISA-level properties
+    // shard 0 perturbs the reference of three fixed cases in three ways and requires nine mismatches.
+    if shard == 0 && matches!(prop.id, "C01" | "C02" | "C03" | "C04" | "C05" | "C06" | "C07" | "C08") {
+        use super::e1::Canary;
+        let cases: [(&[u8], u32); 3] = [(&[0xf8, 0x5a], 0), (&[0x08, 0x92], 0), (&[0x68, 0x9a], 0x00ffd000)];
+        let mut fired = 0;
+        for cn in [Canary::FlipCcrBit(3), Canary::BumpPc, Canary::FlipErBit(0)] {
+            for (code, er1) in cases.iter() {
+                let mut c = Case::new(0xffc000, code);
+                c.er = super::dom::background_regs();
+                c.er[1] = if *er1 != 0 { *er1 } else { c.er[1] };
+                ctx.canary = Some(cn);
+                ctx.frozen = true;
+                let before = ctx.canary_fired;
+                ctx.run(&c);
+                fired += ctx.canary_fired - before;
+            }
+        }
+        ctx.canary = None;
+        ctx.frozen = false;
+        ctx.st = Stats::new();
+        if fired != 9 {
+            eprintln!("canary: only {} of 9 perturbed references were noticed by the comparison", fired);
+            return 4;
+        }
+    }
     let mut results: BTreeMap<String, Value> = BTreeMap::new();
     let mut task = 0usize;
     for u in &prop.units {
